@@ -64,6 +64,7 @@ type rcCfg struct {
 	GrantMax         *byte          // the broker grants at most this QoS in SUBACK (nil: what was requested)
 	Reentrant        bool           // callbacks call back into the client: ConnState reads Done/Err/Stats of its BaseClient and publishes a QoS 0 note through the retrying client on Active; OnError publishes a QoS 0 alarm; the message handler re-registers itself and publishes a QoS 0 echo
 	ReuseBase        bool           // the dialer hands out one and the same *BaseClient every time, with a fresh Transport
+	RepeatPubRec     bool           // the broker repeats PUBREC for unreleased QoS 2 messages right behind CONNACK on reconnects
 	EOFWriteErrors   bool           // a write on a broken link fails with an error that wraps io.EOF
 	PipeErrors       bool           // a locally closed transport reports io.ErrClosedPipe (net.Pipe) instead of a socket-style *net.OpError wrapping net.ErrClosed
 	HandleInState    bool           // the application (re-)registers its handler from inside the ConnState callback, on every StateActive
@@ -169,6 +170,7 @@ func rcExecuteInto(cfg *rcCfg, out **rcRun) *rcRun {
 	r.broker.MethodB = cfg.MethodB
 	r.broker.PingDelay = int64(cfg.PingDelay)
 	r.broker.GrantMax = cfg.GrantMax
+	r.broker.RepeatPubRec = cfg.RepeatPubRec
 	n := len(cfg.Reqs)
 	r.submitted, r.accepted, r.subErr = make([]bool, n), make([]bool, n), make([]error, n)
 	if len(cfg.PushAfterAck) > 0 {
